@@ -169,6 +169,7 @@ PROPS["C14"] = dict(
     ],
     jobs=lambda tier: [
         seeded("recv", "unit", "^TestC14$", 750 if tier == "quick" else 8000, 8 if tier == "quick" else 16, timeout=1800),
+        seeded("client-udp", "e2e", "^TestC14ClientUDP$", 60 if tier == "quick" else 1500, 8, timeout=1800),
     ] + ([seeded("allstarts", "unit", "^TestC14AllStarts$", 6, 16, timeout=3400)] if tier == "thorough" else []),
 )
 
@@ -191,6 +192,7 @@ PROPS["C15"] = dict(
         seeded("pts", "unit", "^TestC15PTS$", 5000 if tier == "quick" else 50000, 1 if tier == "quick" else 4, timeout=1800),
         seeded("ntp", "unit", "^TestC15NTP$", 750 if tier == "quick" else 6000, 4 if tier == "quick" else 8, timeout=1800),
         seeded("ntpcodec", "unit", "^TestC15NTPCodec$", 2000 if tier == "quick" else 50000, 1 if tier == "quick" else 4, timeout=1800),
+        seeded("client-ntp", "e2e", "^TestC15ClientNTP$", 8 if tier == "quick" else 150, 8, timeout=1800),
     ],
 )
 
@@ -594,3 +596,29 @@ _amend("C17", "every SETUP of the clients asks for SAVP,",
 _amend("C17", "RTSPS worlds with a reader over UDP, TCP or automatic",
        "RTSPS worlds with a reader over UDP, TCP, multicast (on the machine's multicast-capable interface, the groups being read by a passive member; "
        "skipped where there is none) or automatic")
+_amend("C14", "Distinct by case hash.",
+       "(client-udp, end to end) the receiver as the library's client wires it up: a scripted server sends 4..60 datagrams of one stream in a drawn "
+       "arrival order (a permutation with displacements of at most 1, 2, 4, 16 or 40 positions, starting anywhere incl. just below the wrap, plus 0..6 "
+       "duplicates) to a client playing over UDP with AnyPortEnable on or off, the SETUP answer naming the server's ports, omitting them, or giving 0-0: "
+       "the packet callback sees strictly increasing sequence numbers (no duplicate, nothing late) and every distinct packet (one may be used up "
+       "learning the server's port). Distinct by case hash.")
+PROPS["C14"]["kinds"] = {"client": "e2e"}  # replays of kind client-udp are run by the e2e binary
+PROPS["C15"]["kinds"] = {"client": "e2e"}
+_amend("C15", "Distinct by case hash.",
+       "(client-ntp, end to end) the NTP mapping as the library's client wires it up: a live server (RTCP report period 30 ms through the verif hook) "
+       "streams a media with two formats of different clock rates and unrelated RTP time bases, the second starting after the first one's sender "
+       "reports, to a client over TCP or UDP; whenever Client.PacketNTP answers for a delivered packet the answer is within 250 ms of the absolute time "
+       "the writer gave that packet (it may decline until a report about that very format has arrived; non-trivial: >=2 answers and >=1 declined). "
+       "Distinct by case hash.")
+_c16_jobs2 = PROPS["C16"]["jobs"]
+PROPS["C16"]["jobs"] = lambda tier: _c16_jobs2(tier) + [
+    seeded("client-writer", "e2e", "^TestC16ClientWriter$", 40 if tier == "quick" else 800, 8, timeout=1800)]
+PROPS["C16"]["kinds"] = dict(PROPS["C16"].get("kinds", {}), client="e2e")
+_amend("C16", "(procseq) sequential programs",
+       "(client-writer, end to end) the queue as the library's client owns it around RECORD and PAUSE: a recording client (TCP or UDP, queue 8..256) "
+       "alternates groups of 1..8 writes with a PAUSE that the server's application refuses (405: the session goes on) and with PAUSE followed by "
+       "RECORD, the queue being allowed to drain before each pause (Pause() drops what is pending, by design): every packet WritePacketRTP accepted "
+       "without error reaches the server over TCP, and over UDP at least one of every group of five or more. (procseq) sequential programs")
+_amend("C01", "and - with a burst being written by another goroutine meanwhile -",
+       "a PAUSE (of a reader or of the recording client) that the server's application refuses with 405, after which the session and its obligations "
+       "go on, and - with a burst being written by another goroutine meanwhile -")
